@@ -46,9 +46,15 @@ Fixpoint am_get {A : Type} (k : N) (m : list (N * A)) : option A :=
 Definition am_add_zone (k z : N) (m : list (N * list N)) : list (N * list N) :=
   am_set k (zs_insert z (match am_get k m with Some s => s | None => [] end)) m.
 
-(** * The field selector's treatment of a pruner result.
-    [none_code]: 0 = `return Vec::new()`, 1 = all zones of the segment, 2 = all zones
-    only while the segment is still in flight (regenerated from the Rust text). *)
+(** * The field selector's treatment of a pruner result ([FieldSelector::select_for_segment]).
+    Per strategy, regenerated from the Rust text:
+    - [bypass]: an operator other than [=] gets all zones of the segment without the
+      pruner being consulted;
+    - [none_op_all]: the pruner answered [None] and the operator is one for which the
+      index says nothing ([!=], [IN]): all zones;
+    - [none_code] for every other [None]: 0 = `return Vec::new()`, 1 = all zones,
+      2 = all zones only while the segment is still in flight.
+    [all_zones] stands for [collect_zones_for_scope]: every zone of the segment for the uid. *)
 Inductive strategy := STemporal | SEnum | SZoneXor | SXorPresence.
 
 Definition none_code (st : strategy) : N :=
@@ -59,11 +65,41 @@ Definition none_code (st : strategy) : N :=
   | SXorPresence => zidx_sel_xf_none
   end.
 
-Definition select (st : strategy) (inflight : bool) (all_zones : list N)
+Definition bypass (st : strategy) (op : cmp_op) : bool :=
+  negb (cmp_op_eqb op OEq) &&
+  match st with
+  | STemporal => zidx_sel_temporal_noneq_bypass
+  | SEnum => zidx_sel_enum_noneq_bypass
+  | SZoneXor => zidx_sel_zxf_noneq_bypass
+  | SXorPresence => zidx_sel_xf_noneq_bypass
+  end.
+
+Definition none_op_all (st : strategy) (op : cmp_op) : bool :=
+  match op with
+  | ONeq =>
+      match st with
+      | STemporal => zidx_sel_temporal_none_neq_all
+      | SEnum => zidx_sel_enum_none_neq_all
+      | SZoneXor => zidx_sel_zxf_none_neq_all
+      | SXorPresence => zidx_sel_xf_none_neq_all
+      end
+  | OIn =>
+      match st with
+      | STemporal => zidx_sel_temporal_none_in_all
+      | SEnum => zidx_sel_enum_none_in_all
+      | SZoneXor => zidx_sel_zxf_none_in_all
+      | SXorPresence => zidx_sel_xf_none_in_all
+      end
+  | _ => false
+  end.
+
+Definition select (st : strategy) (op : cmp_op) (inflight : bool) (all_zones : list N)
                   (r : option (list N)) : list N :=
+  if bypass st op then all_zones else
   match r with
   | Some zs => zs
   | None =>
+      if none_op_all st op then all_zones else
       match none_code st with
       | 1 => all_zones
       | 2 => if inflight then all_zones else []
